@@ -22,6 +22,11 @@
 //	  may hold the text in (kinds.go: ax.SourceKinds plus bufio.Readers of
 //	  16..512 bytes); the verdict must not depend on the kind.
 //
+//	command line routes (cli.go): a sample of texts, one or two per deviation
+//	  class plus controls, built around real content, through INPUT as a path
+//	  and on stdin and through -i with an armored passphrase-protected identity
+//	  file (path and "-", -d and -e -i) of the real cmd/age binary.
+//
 // Oracle: see oracle.go (inverse; acceptance = refage.Dearmor; canonical form
 // armor(dearmor(t)) == normalise(t); typed rejections).
 package main
@@ -114,6 +119,7 @@ func main() {
 	})
 
 	r.Guard("source-kinds", func() { runKinds(r, c) })
+	r.Guard("command-line-routes", func() { runCLI(r, c) })
 
 	c.report()
 	r.Finish()
